@@ -17,6 +17,7 @@ TRUSTED = ["String::from_utf8_lossy / str::from_utf8 / char::encode_utf8 (std) a
            "oracle: own Windows-1252 table (Python cp1252 codec for assigned bytes, C1 controls for 0x81 0x8d 0x8f 0x90 0x9d); "
            "bytes.decode('utf-8', errors='replace') (maximal-subpart rule)"]
 ASSUMPTIONS = ["bytes are < 256 (wf_bytes)"]
+PROFILES = ["release", "debug"]   # the size ladders (props/C12_sizes.py) also run on the debug build
 
 WS = b" \t\n\x0c\r"
 REP = [0x00, 0x09, 0x0a, 0x0b, 0x0c, 0x0d, 0x20, 0x41, 0x5c, 0x7f, 0x80, 0x8f, 0x90, 0x9f, 0xa0, 0xbf, 0xc0, 0xc1, 0xc2, 0xdf,
@@ -34,23 +35,45 @@ def w1252_char(b):
 TABLE = [w1252_char(b) for b in range(256)]
 
 
-def trim(d):
+_TRANS = {b: TABLE[b] for b in range(256)}
+
+
+def trim_naive(d):
     n = len(d)
     while n and d[n - 1] in WS:
         n -= 1
     return d[:n]
 
 
+def trim(d):
+    """the maximal suffix of the five ASCII whitespace bytes removed (C speed: the size ladders decode 64 KiB strings)"""
+    return bytes(d).rstrip(WS)
+
+
 def unescape(d):
-    return bytes(x for x in d if x != 0x5c)
+    return bytes(d).replace(b"\\", b"")
 
 
 def ref_w1252(d):
-    return "".join(TABLE[b] for b in unescape(trim(d))).encode("utf-8")
+    return unescape(trim(d)).decode("latin-1").translate(_TRANS).encode("utf-8")
 
 
 def ref_utf8(d):
     return unescape(trim(d)).decode("utf-8", errors="replace").encode("utf-8")
+
+
+def _self_check():
+    """the C-speed reference functions against their byte-by-byte definitions"""
+    import random
+    r = random.Random(12)
+    for _ in range(3000):
+        d = bytes(r.choice(b" \t\n\x0c\r\x0b\\a\x80\xff\xe9\x00") for _ in range(r.randrange(12)))
+        assert trim(d) == trim_naive(d)
+        assert unescape(d) == bytes(x for x in d if x != 0x5c)
+        assert ref_w1252(d) == "".join(TABLE[b] for b in unescape(trim(d))).encode("utf-8")
+
+
+_self_check()
 
 
 def is_valid(b):
@@ -79,7 +102,7 @@ def check_decode(ctx, c, out, rep=None, note=""):
     if got != exp:
         ctx.fail("reference", "%s::decode(%r) = %r, reference mapping (trim, unescape, %s) = %r" % (
             name, d, got, "code page" if kind == "enc.w1252" else "lossy", exp), rc, [out], ("O:" if not borrowed else "B:") + hexs(exp))
-    plain = all(x < 128 and x != 0x5c for x in t)
+    plain = t.isascii() and 0x5c not in t
     if plain and not borrowed:
         ctx.fail("not-borrowed", "%s::decode(%r): escape-free ASCII input was not returned borrowed" % (name, d), rc, [out], "B:" + hexs(t))
     if borrowed and got != t:
@@ -273,6 +296,11 @@ def run(ctx):
     import sys
     from props import C12_routes
     C12_routes.run(ctx, sys.modules[__name__])
+    # <<<
+    # >>> s_c12 (wave 6): size / boundary ladders (lengths to 65537, counts, whitespace runs, straddled 8k boundaries, alignment mod 128),
+    #     release and debug builds
+    from props import C12_sizes
+    C12_sizes.run(ctx, sys.modules[__name__])
     # <<<
 
 
